@@ -79,11 +79,17 @@ def build_expr(rng):
             t = g.term_with_target(T)
         except RuntimeError:
             continue
+        if rng.random() < 0.15:
+            # symbolic prefactors (plain symbols, powers, inverse)
+            t = t * rng.choice([Symbol("x"), Symbol("x") * Symbol("y"), Symbol("x") ** 2, 1 / Symbol("x")])
         terms.append(t)
         if t0 is None:
             t0 = t
     if not terms:
         raise RuntimeError("no term")
+    if not names and rng.random() < 0.3:
+        # a term without any tensor (number and symbolic prefactor only)
+        terms.append(rng.choice([2, Rational(1, 2), -3]) * rng.choice([Symbol("x"), 1 / Symbol("x"), S.One]))
     # a second term built from the same objects with differently wired contracted indices
     # (one tensor transposed in two contracted indices): same object descriptions, other value
     if t0 is not None and rng.random() < 0.35:
